@@ -88,7 +88,7 @@ PROPS = {
         shard=2, workers=16,
         theorems=['btree_iter_eq_spec', 'rocks_iter_eq_spec', 'iter_spec_is_selection', 'original_iterators_wrong',
                   'rocks_commit_eq_spec', 'commit_same_contents_partial', 'commit_same_contents_refuted',
-                  'backends_eq_spec_partial', 'c11_checker_sound'],
+                  'backends_eq_spec_partial', 'c11_checker_sound', 'model_obs_accepted_partial'],
         classify=_c11_classes,
         no_shrink=False,
         rule='one case = one commit history (1..5, thorough 1..8 commits: single change sets and lists of 2..3 change sets with '
@@ -113,7 +113,8 @@ PROPS = {
         id='C12', cluster='Backend', crate='h-backend', tag=12,
         n={'quick': 60, 'thorough': 900},
         shard=2, workers=16,
-        theorems=[],
+        theorems=['view_exact_or_nohistory_partial', 'view_exact_or_nohistory_refuted', 'view_mixed_lengths_original_wrong',
+                  'rollback_restores_prev', 'rollback_undoes_commit_step', 'c12_checker_sound', 'model_trace_accepted_partial'],
         classify=_c12_classes,
         rule='one case = one HistoricalRocksDB<OnChain> in a temp dir, first block height in {0,1,2,7}, initial policy and a '
              'history of 3..16 (thorough 3..30) steps: commit of the next height (overlapping writes, removals, no-op overwrites, '
